@@ -1,6 +1,6 @@
 """C03: division yields the quotient correctly rounded to 18 fractional digits, normalised (oracle: Appendix A.4)."""
 from ..absint import Interp, Opts, Agg, Int, K, ZERO, NONZERO, POS
-from ..harness import (M, T_DIV, T_CDIV, SCALES_QUICK, SCALES_ALL, dec_val, int_val, dec_parts, opt_parts, poly_eq, show_outcome,
+from ..harness import (dec_coeff, M, T_DIV, T_CDIV, SCALES_QUICK, SCALES_ALL, dec_val, int_val, dec_parts, opt_parts, poly_eq, show_outcome,
                        show_poly, notes_of, get_db, run_jobs, find_root, query_trem)
 from ..db import INT_TYPES9, span_str
 from ..poly import padd, pscale, pconst, pmul, pfreeze
@@ -22,14 +22,14 @@ def run_job(job):
     st = I.new_state()
     if form == 'DD':
         xa, ya = dec_val(st, 'x', p), dec_val(st, 'y', q)
-        xc, yc = xa.fields[0], ya.fields[0]
+        xc, yc = dec_coeff(xa), dec_coeff(ya)
     elif form == 'DI':
         xa, ya = dec_val(st, 'x', p), int_val(st, 'y', ty)
-        xc, yc = xa.fields[0], ya
+        xc, yc = dec_coeff(xa), ya
         q = 0
     else:
         xa, ya = int_val(st, 'x', ty), dec_val(st, 'y', q)
-        xc, yc = xa, ya.fields[0]
+        xc, yc = xa, dec_coeff(ya)
         p = 0
     I.call_root(st, fn, [xa, ya])
     outs = I.explore(st)
